@@ -6626,8 +6626,9 @@ class Choice:
     def _selection_from_defaults(self):
         # Check if we have a default
         for sym, cond in self.defaults:
-            # The default symbol must be visible too
-            if expr_value(cond) and sym.visibility:
+            # The default symbol must be visible too (and one of the choice's own symbols: a default naming something
+            # else has been pointed out when the Kconfig files were loaded and selects nothing)
+            if sym.choice is self and expr_value(cond) and sym.visibility:
                 return sym
 
         # Otherwise, pick the first visible symbol, if any
